@@ -889,12 +889,13 @@ _GLUE = ["Language.fromStr", "Script.fromStr", "Region.fromStr", "Variant.fromSt
 _RAW = ["Language.toRaw", "Language.toRawRef", "Script.toRaw", "Region.toRaw", "Variant.toRaw", "Variant.toRawRef", "Language.fromRaw", "Script.fromRaw",
         "Region.fromRaw", "Variant.fromRaw", "LangId.fromRawParts", "Locale.fromRawParts"]
 # the six proc macros (tr_macro.rs): parse at build time, `quote!` an expression of UL.MTok, evaluated by Model/MacroSem.lean
+_SERDE = ["Serde.serialize", "Serde.deserialize"]
 _MACROS = ["Macros.lang", "Macros.script", "Macros.region", "Macros.variant", "Macros.langid", "Macros.locale"]
 SRC_TIE = {"C01": _SUBTAGS + _EXT + _PARSE_LI + _PARSE_LOC + _OPS + _LIKELY + _GLUE + _RAW,
            "C06": _LIKELY + _RAW, "C07": _LIKELY + _RAW, "C08": _LIKELY + _RAW, "C14": _LIKELY + _RAW, "C20": _LIKELY + _RAW, "C18": _RAW,
            "C16": _SUBTAGS + _PARSE_LI + _PARSE_LOC + _FMT + _RAW + ["Language.fromStr", "Script.fromStr", "Region.fromStr", "Variant.fromStr", "LangId.fromStr", "Locale.fromStr", "ExtMap.fromStr", "LangId.intoParts", "Locale.intoParts"] + _MACROS, "C02": _SUBTAGS + _PARSE_LI, "C03": _SUBTAGS + _EXT + _PARSE_LI + _PARSE_LOC,
            "C04": _SUBTAGS + _EXT + _PARSE_LI + _PARSE_LOC + _FMT, "C05": _SUBTAGS + _EXT + _PARSE_LI + _PARSE_LOC + _FMT,
-           "C09": _SUBTAGS + _EXT + _PARSE_LI + _PARSE_LOC, "C10": _SUBTAGS + _EXT + _OPS + _FMT + _PARSE_LOC + ["LangId.maximize", "LangId.minimize"], "C11": _MATCH + ["Locale.isMatch"], "C12": ["Language.asStr"] + _FMT + _OPS + _GLUE, "C19": _PARSE_LI + _FMT,
+           "C09": _SUBTAGS + _EXT + _PARSE_LI + _PARSE_LOC, "C10": _SUBTAGS + _EXT + _OPS + _FMT + _PARSE_LOC + ["LangId.maximize", "LangId.minimize"], "C11": _MATCH + ["Locale.isMatch"], "C12": ["Language.asStr"] + _FMT + _OPS + _GLUE, "C19": _PARSE_LI + _FMT + _SERDE + ["LangId.fromStr"],
            "C13": _SUBTAGS + _PARSE_LI + _PARSE_LOC + ["Locale.ofLangId", "Locale.toLangId", "LangId.fromStr", "Locale.fromStr"],
            "C15": _SUBTAGS + [g for g in _GLUE if g.split(".")[0] in ("Language", "Script", "Region", "Variant")], "C17": _SUBTAGS + _PARSE_LI + _FMT + _OPS + _RAW}
 
@@ -992,7 +993,7 @@ def setup():
         ct = cfgtie.run(R.REPO, R.ROOT)
         p_, t_, rest_ = cfgtie.summary(ct)
         R.lake_build(["UnicLocale.SrcTie.TransferCfg", "UnicLocale.SrcTie.Transfer", "UnicLocale.SrcTie.TransferOps", "UnicLocale.SrcTie.TransferLikely",
-                      "UnicLocale.SrcTie.TransferParse", "UnicLocale.SrcTie.TransferMacros"])
+                      "UnicLocale.SrcTie.TransferParse", "UnicLocale.SrcTie.TransferMacros", "UnicLocale.SrcTie.TransferSerde"])
         log("configuration tie: %d of %d definitions proved equal across the feature sets; not proved: %s" % (p_, t_, [(a, b) for a, b, _, _ in rest_]))
     log("setup done in %.0fs" % (time.time() - t0))
     return 0
@@ -1619,6 +1620,12 @@ def check(pid, tier, seed):
             source_tie["transfer_theorems"] = ("UL.SrcTie.TransferOps.* built (UL.Src.step = step for every operation; the history theorems hold of "
                                                "histories run on the source-derived mutators, getters, printer and parser)"
                                                if ok_tr else "UL.SrcTie.TransferOps does not build")
+        if pid == "C19" and source_tie["proved"] == source_tie["of"]:
+            with R.Lock():
+                ok_tr, _ = R.lake_build(["UnicLocale.SrcTie.TransferSerde"])
+            source_tie["transfer_theorems"] = ("UL.SrcTie.TransferSerde.* built (serialised form = the canonical string the source-derived Display writes; a string "
+                                               "deserialises exactly as the source-derived parser parses it; round trip; never a panic)"
+                                               if ok_tr else "UL.SrcTie.TransferSerde does not build")
         if pid == "C16" and source_tie["proved"] == source_tie["of"]:
             with R.Lock():
                 ok_tr, _ = R.lake_build(["UnicLocale.SrcTie.TransferMacros"])
